@@ -1,6 +1,7 @@
 """C09 - splice replaces exactly the requested range and nothing else (splice, append; operand unchanged)."""
 import itertools
 import wire
+import sgrterm
 from wire import mk_fmt, cells
 from curtsies.formatstring import FmtStr, Chunk
 from props.common import chunks_for, reply_fmt, guarded, canon_eff_cells, eff_cells, PALETTE
@@ -220,11 +221,29 @@ def width_view(x):
         return ("width-raises", type(e).__name__)
 
 
+def render_problem(r):
+    """the result observed through its TERMINAL STRING: str(r) must be the rendering of r's own runs (a value rebuilt from
+    the same runs renders, compares and hashes the same - no stale memo carried into the result), and what a terminal shows
+    for it (SGR reader, harness/sgrterm.py) must be r's per-character cells. -> None or a description"""
+    runs = wire.fmt_chunks(r)
+    fresh = wire.mk_fmt(runs)
+    sr = str(r)
+    if sr != str(fresh) or not (r == fresh) or hash(r) != hash(fresh):
+        return "str()/==/hash of the result are not those of a value rebuilt from its own runs %r: str() is %r, rebuilt %r" % (
+            runs, sr, str(fresh))
+    if "\x1b" not in r.s and "\x9b" not in r.s:
+        shown = sgrterm.display(sr)[0]
+        want = eff_cells(cells(r))
+        if shown != want:
+            return "a terminal shows %r for str(result), its runs say %r" % (shown, want)
+    return None
+
+
 def snapshot(x):
     """every public view of an operand (the verdict on "f itself is unchanged" uses these and nothing private)"""
     if isinstance(x, str):
         return x
-    return (str(x), x.s, repr(x), tuple(cells(x)), len(x), width_view(x))
+    return (str(x), x.s, repr(x), tuple(cells(x)), len(x), width_view(x), hash(x), tuple(str(FmtStr(ch)) for ch in x.chunks))
 
 
 def run_ids(x):
@@ -247,7 +266,9 @@ def oracle(c, model_reply=None):
         if not (c["start"] < n and nlen == 1):
             return None         # outside the oracle's statement (tie only): padding / rejection behaviour is C04's
     # touch the memoised views first so that a stale cache would be visible afterwards
+    # (this also RENDERS both operands and each of their runs, compares and hashes them before the call)
     before_f, before_new = snapshot(f), snapshot(new)
+    eq_before = (f == mk_f(c))
     ids_before = (run_ids(f), run_ids(new))
     try:
         r = call(c, f, new)
@@ -260,6 +281,14 @@ def oracle(c, model_reply=None):
             RUN_OBJECTS_REPLACED[0] += 1
     except Exception as e:  # noqa: BLE001
         return ("%s: reading the result raised %s" % (c["op"], type(e).__name__), None)
+    try:
+        rp = render_problem(r)
+        if rp is None and (f == mk_f(c)) != eq_before:
+            rp = "f == <an equal value> changed across the call"
+    except Exception as e:  # noqa: BLE001
+        rp = "rendering the result raised %s" % type(e).__name__
+    if rp:
+        return ("%s: %s" % (c["op"], rp), None)
     unchanged = after_f == before_f and chunks_f == [(s, dict(a)) for s, a in c["f"]] and after_new == before_new
     if got != exp:
         fp = None
@@ -282,7 +311,7 @@ def oracle(c, model_reply=None):
     if rl != len(exp):
         return ("%s: len() is %d, number of characters is %d" % (c["op"], rl, len(exp)), None)
     if after_f != before_f or chunks_f != [(s, dict(a)) for s, a in c["f"]]:
-        views = ("str()", ".s", "repr()", "cells", "len()", ".width")
+        views = ("str()", ".s", "repr()", "cells", "len()", ".width", "hash()", "str() of each run")
         diff = [(views[i], before_f[i], after_f[i]) for i in range(len(views)) if before_f[i] != after_f[i]]
         return ("%s: operand changed: views of f before/after %r (runs %r)" % (c["op"], diff[:3], chunks_f), None)
     if after_new != before_new:
